@@ -36,4 +36,21 @@ theorem ephem_empty_list_yields_all : ephemIter 20 8 pts (some (.list [])) none 
 /-- [analytical-iter-dates-list-empty-raises-value-error] `dates=[]` raises ValueError ("Null step") on analytical propagators -/
 theorem analytical_empty_list_raises : analyticalIter 20 0 none { dates := some (.list []) } = (true, Run.fail .value) := by decide
 
+/-- [sgp4-history-dependent-propagate-state-after-inplace-change] Sgp4 keeps the satellite record computed when the orbit was
+bound: after the user modifies the orbit in place, `propagate` still returns the trajectory of the old elements
+(`(0, 0)` = orbit 0 before its modification) whereas fresh objects follow the new ones (`(0, 1)`) -/
+theorem sgp4_stale_after_modify :
+    let w : World (Nat × Nat) := { kind := .sgp4, store := Prod.mk, epoch := fun _ => 0 }
+    let s := runHist (R := Nat × Nat) w (fun v _ => v) (fun _ _ _ => false) 10 {} [.propagate 0 5, .modify 0]
+    (exec w (fun v _ => v) (fun _ _ _ => false) 10 s (.propagate 0 7)).2.states = [(0, 0)] ∧
+    (exec w (fun v _ => v) (fun _ _ _ => false) 10 ({ ver := s.ver } : St (Nat × Nat)) (.propagate 0 7)).2.states = [(0, 1)] := by
+  decide
+
+/-- the same history under the copying setters and under NonePropagator follows the modification -/
+theorem kepler_follows_modify :
+    let w : World (Nat × Nat) := { kind := .kepler, store := Prod.mk, epoch := fun _ => 0 }
+    let s := runHist (R := Nat × Nat) w (fun v _ => v) (fun _ _ _ => false) 10 {} [.propagate 0 5, .modify 0]
+    (exec w (fun v _ => v) (fun _ _ _ => false) 10 s (.propagate 0 7)).2.states = [(0, 1)] := by
+  decide
+
 end BeyondVerif.C08W
